@@ -47,6 +47,7 @@ type ParseRec struct {
 }
 
 var hangLimit = 20 * time.Second
+var hangs int
 
 type recorder struct {
 	out       *bufio.Writer
@@ -126,12 +127,11 @@ func (r *recorder) record(id int, q, df string) *ParseRec {
 	select {
 	case <-done:
 	case <-time.After(hangLimit):
+		// the call is still running: report it as hanging and leave its goroutine behind (the hook ignores it from now on)
 		r.cur = nil
-		rec.Outcome = "hang"
-		r.write(rec)
-		r.out.Flush()
+		hangs++
 		fmt.Fprintf(os.Stderr, "HANG id=%d\n", id)
-		os.Exit(3)
+		return &ParseRec{ID: id, Q: q, DF: df, Outcome: "hang", Toks: rec.Toks, LexErr: rec.LexErr, Steps: []Step{}, Tree: Tree{"op": "NIL"}}
 	}
 	r.cur = nil
 	if rec.Outcome == "panic" {
